@@ -21,7 +21,7 @@ enum Op {
     Run(usize),
 }
 
-const SOURCES: [&str; 31] = [
+const SOURCES: [&str; 35] = [
     "|12 34 56| var b",
     "b open-bitstr 8 bits drop 4 bits",
     "|ff| b bitstr-append ! b",
@@ -57,6 +57,12 @@ const SOURCES: [&str; 31] = [
     "close-bitstr offset remain",
     // a vector read with `get`
     "[ 7 8 ] 0 get",
+    // tagged values held by the stack only (uniquely owned in a lone interpreter, shared after a clone),
+    // then consumed by words that might work in place when they are the only owner
+    "5 1 \"k\" insert-tag",
+    "\"k\" remove-tag dup tags",
+    "[ 1 2 ] 7 \"t\" insert-tag",
+    "3 swap push dup tags",
 ];
 const D2_PROBE: &str = "d2-width d2-height 1 1 d2-data";
 const COPIES: usize = 3;
@@ -171,7 +177,7 @@ fn op_text(op: &Op) -> String {
 
 fn alphabet(quick: bool) -> Vec<Op> {
     let mut ops = vec![Op::Clone(0, 1), Op::Clone(1, 2), Op::Clone(0, 2)];
-    let srcs: Vec<usize> = if quick { vec![0, 2, 3, 5, 6, 7, 8, 10, 11, 12, 13, 14, 15, 16, 18, 20, 22, 23, 24, 25, 26, 27, 28, 29, 30] } else { (0..SOURCES.len()).collect() };
+    let srcs: Vec<usize> = if quick { vec![0, 2, 3, 5, 6, 7, 8, 10, 11, 12, 13, 14, 15, 16, 18, 20, 22, 23, 24, 25, 26, 27, 28, 29, 30, 31, 32, 33, 34] } else { (0..SOURCES.len()).collect() };
     for x in 0..2 {
         for s in &srcs {
             ops.push(Op::Eval(x, *s));
@@ -392,6 +398,8 @@ mod observers {
             }
             v.push(s);
         }
+        v.push("[ [ [ [ [ [ [ [ 1 ] ] ] ] ] ] ] ] error".to_string());
+        v.push("[ [ 2 ] ] error".to_string());
         v.push(": e1 0\nget ; [ ] e1".to_string());
         v.push(": e1 0 get ;\n[ ] e1".to_string());
         // all location sources have the same length
